@@ -385,7 +385,12 @@ def run(tier, seed):
     for t in ftexts:
         fcases.append({"q": "molar_mass of %s" % t, "leg": "formula", "text": t})
         fcases.append({"q": t, "leg": "formula", "text": t})
-    fres, fevents, fverdicts = decide(run, fcases, envs, shards, "f", counters)
+    fres, fevents, fverdicts = [], [], {}
+    CH = 60000                      # bounded memory: the thorough tier has ~750 000 formula queries
+    for c0 in range(0, len(fcases), CH):
+        r_, e_, v_ = decide(run, fcases[c0:c0 + CH], envs, shards, "f", counters)
+        if c0 == 0:
+            fres, fevents, fverdicts = r_, e_, v_       # the self-check below picks from the first chunk
     run.sample({"leg": "formula", "q": fcases[len(fcases) // 2]["q"]}, cap=12)
     run.note("legs", counters)
 
@@ -402,7 +407,7 @@ def run(tier, seed):
     # ---- the binding is not vacuous: corrupted observations must be rejected
     picks = []
     for want in ("forward", "scale", "formula"):
-        for i, c in enumerate(cases if want != "formula" else fcases):
+        for i, c in enumerate(cases if want != "formula" else fcases[:len(fevents)]):
             evs, vd = (events, verdicts) if want != "formula" else (fevents, fverdicts)
             o = evs[i]["obs"]
             if c["leg"] == want and not vd.get(i) and ((want == "scale" and o.get("t") == "subst" and len(o.get("props", [])) >= 2)
